@@ -574,9 +574,23 @@ pub fn main(args: &[String]) {
             }
         }
         for en in [&e8, &e16] {
-            for (m, r, n) in [(1usize, 1usize, 1usize), (2, 3, 4), (4, 5, 3), (3, 3, 3), (5, 2, 5), (3, 7, 2), (9, 3, 2)] {
+            for (m, r, n) in [(5usize, 2usize, 5usize), (3, 7, 2), (9, 3, 2), (2, 9, 3), (2, 2, 9), (4, 2, 11), (3, 17, 3), (17, 2, 2)] {
                 for which in ["bolt_cp", "bolt_cc_cr", "bolt_cc_dc"] {
                     bolt(en, &mut rng, which, m, r, n);
+                }
+            }
+            // every small shape
+            let top = if quick { 4 } else { 6 };
+            for m in 1..=top {
+                for r in 1..=top {
+                    for n in 1..=top {
+                        if en.n != 8 && (m + r + n) % 2 == 1 {
+                            continue;
+                        }
+                        for which in ["bolt_cp", "bolt_cc_cr", "bolt_cc_dc"] {
+                            bolt(en, &mut rng, which, m, r, n);
+                        }
+                    }
                 }
             }
         }
